@@ -672,3 +672,113 @@ Proof.
 Qed.
 
 Print Assumptions lzma2_roundtrip.
+
+(* ---------------------------------------------------------------------------------------------
+   With a (non-empty) preset dictionary.  Proved for a dictionary size the reader does not round
+   (multiple of 16, at least 4096: otherwise the reader keeps more of a long preset than the writer
+   model's view has) and a preset shorter than the dictionary (a preset that fills the window makes
+   the first loop iteration of the reader return no bytes - it only wraps the write position -
+   which the per-iteration progress lemma [iter_step] excludes; not proved here).  The EMPTY preset
+   is refuted in Lzma2ExamplesProofs.v (lzma2_empty_preset_refuted). *)
+Lemma aset_list_app a : forall b t i, aset_list t i (a ++ b) = aset_list (aset_list t i a) (i + zlen a) b.
+Proof.
+  induction a as [|x r IH]; intros b t i; cbn [app aset_list].
+  - change (zlen (@nil Z)) with 0. f_equal. lia.
+  - rewrite IH, zlen_cons. f_equal. lia.
+Qed.
+
+Lemma aget_list_aset_list_prefix a : forall b t i, 0 <= i ->
+  aget_list (aset_list t i (a ++ b)) i (length a) = a.
+Proof.
+  induction a as [|x r IH]; intros b t i Hi; cbn [app aset_list aget_list length]; [reflexivity|].
+  rewrite aset_list_other by lia. rewrite agss. f_equal. apply IH. lia.
+Qed.
+
+Lemma Rel_same_cells w w' hist : Rel w hist ->
+  w_buf w' = w_buf w -> w_size w' = w_size w -> w_pos w' = w_pos w -> w_full w' = w_full w ->
+  w_limit w' = w_limit w -> w_pending_len w' = w_pending_len w -> 0 <= w_start w' <= w_pos w' ->
+  Rel w' hist.
+Proof.
+  intros [A B C D E F G H] Hb Hs Hp Hf Hl Hpl Hst.
+  constructor; unfold bget, widx in *; rewrite ?Hb, ?Hs, ?Hp, ?Hf, ?Hl, ?Hpl; auto.
+  rewrite Hp in Hst. lia.
+Qed.
+
+Lemma zlen_lastn {A} (l : list A) n : 0 <= n <= zlen l -> zlen (lastn (Z.to_nat n) l) = n.
+Proof. intros H. unfold lastn, zlen in *. rewrite skipn_length. lia. Qed.
+
+Lemma lzwin_new_preset_rel ds p : 0 < ds -> ds mod 16 = 0 ->
+  Rel (lzwin_new ds (Some p)) (rev (lastn (Z.to_nat (Z.min (zlen p) ds)) p)).
+Proof.
+  intros Hs H16. set (n := Z.min (zlen p) ds). set (kept := lastn (Z.to_nat n) p).
+  pose proof (zlen_nonneg p) as Hp.
+  assert (Hk : zlen kept = n) by (apply zlen_lastn; unfold n; lia).
+  pose proof (put_list_rel kept (lzwin_new ds None) [] (lzwin_new_rel ds Hs H16)) as HR.
+  cbn [lzwin_new w_buf w_size w_start w_pos w_full w_limit w_pending_len w_pending_dist] in HR.
+  rewrite Hk, app_nil_r in HR. specialize (HR ltac:(unfold n; lia)).
+  eapply Rel_same_cells; [exact HR|..]; unfold lzwin_new; fold n; fold kept;
+    cbn [w_buf w_size w_start w_pos w_full w_limit w_pending_len]; try reflexivity; unfold n; lia.
+Qed.
+
+Lemma ehist_new_rel dict p data :
+  hist_rel (ehist_new dict p data) (rev (preset_kept dict p)) /\ data_from (ehist_new dict p data) = data.
+Proof.
+  unfold ehist_new. set (kept := preset_kept dict p).
+  set (h0 := mkEhist (array_of_list (kept ++ data)) (zlen kept + zlen data) 0 (zlen kept) dict).
+  split.
+  - assert (H0 : hist_rel (h_at h0 0) []).
+    { unfold hist_rel, h_at, h0. cbn [h_pos h_base]. change (zlen (@nil Z)) with 0.
+      split; [lia|]. split; [lia|]. intros d Hd. lia. }
+    pose proof (hist_rel_stored (length kept) _ _ H0) as H1.
+    rewrite h_at_at, app_nil_r in H1. cbn [h_at h_pos h_data] in H1.
+    unfold h0 in H1 at 2. cbn [h_data] in H1. unfold array_of_list in H1.
+    rewrite aget_list_aset_list_prefix in H1 by lia.
+    replace (0 + Z.of_nat (length kept)) with (h_pos h0) in H1 by (unfold h0, zlen; cbn [h_pos]; lia).
+    rewrite h_at_pos in H1. exact H1.
+  - unfold data_from, h0. cbn [h_data h_pos h_total]. unfold array_of_list.
+    rewrite aset_list_app. replace (Z.to_nat (zlen kept + zlen data - zlen kept)) with (length data) by (unfold zlen; lia).
+    apply aget_list_aset_list. pose proof (zlen_nonneg kept). lia.
+Qed.
+
+Theorem lzma2_roundtrip_preset : forall lc lp pb dict p data evs stream tail sizes,
+  0 <= lc -> 0 <= lp -> lc + lp <= 4 -> 0 <= pb <= 4 ->
+  4096 <= dict <= 2147483648 -> dict mod 16 = 0 ->
+  p <> [] -> zlen p < dict -> bytes_ok p = true -> bytes_ok data = true ->
+  l2_no_end evs ->
+  lzma2_write lc lp pb dict (Some p) data evs = Ok stream ->
+  Forall (fun z => 0 < z) sizes ->
+  exists s0, lzma2_new (stream ++ tail) dict (Some p) = Ok s0 /\
+    forall fuel, (length data + 2 <= fuel)%nat ->
+    exists s_end, lzma2_read_all fuel s0 sizes sizes [] = Ok (data, 0, s_end) /\ m_in s_end = tail.
+Proof.
+  intros lc lp pb dict p data evs stream tail sizes Hlc Hlp Hs Hpb Hdict H16 Hpne Hplen Hpb' Hbytes Hne Hw Hsizes.
+  pose proof (lzma2_frame_sync lc lp pb dict (Some p) data evs stream ltac:(lia) Hne Hw) as Hck.
+  cbn [start_level preset_list] in Hck.
+  unfold lzma2_new, lzma2_get_dict_size. cbn [obind].
+  replace ((Z.min (Z.max dict 4096) 4294967280 + 15) / 16 * 16) with dict by lia.
+  eexists. split; [reflexivity|]. intros fuel Hf.
+  set (h0 := ehist_new dict p data) in *.
+  destruct (ehist_new_rel dict p data) as (Hhr & Hdf). fold h0 in Hhr, Hdf.
+  assert (Hdata : forall i, 0 <= aget 0 (h_data h0) i < 256).
+  { intros i. apply (data_ok_new dict p data Hpb' Hbytes i). }
+  assert (Hhas : match p with _ :: _ => true | [] => false end = true) by (destruct p; [congruence | reflexivity]).
+  pose proof (zlen_nonneg p) as Hpz.
+  match goal with |- exists s_end, lzma2_read_all _ ?s0 _ _ _ = _ /\ _ =>
+    destruct (read_chunks lc lp pb dict dict tail (h_data h0) (h_total h0) Hlc Hlp Hs Hpb ltac:(lia)
+                ltac:(lia) ltac:(lia) H16 Hdata RProps h0 stream s0 sizes fuel Hck) as (s_end & Hr & Ht)
+  end.
+  - unfold at_boundary. msimpl. rewrite Hhas. cbn [negb].
+    split; [reflexivity|]. split; [reflexivity|]. split; [reflexivity|]. split; [reflexivity|].
+    split; [split; [exact I|]; split; [intros _; reflexivity | intros X; discriminate X]|].
+    split; [|unfold hfix; repeat split; reflexivity].
+    unfold sync_win. split; [reflexivity|]. split; [reflexivity|].
+    exists (rev (preset_kept dict p)). split; [|exact Hhr].
+    unfold win_ok. split; [apply lzwin_new_preset_rel; lia|].
+    unfold lzwin_new. cbn [w_size w_start w_pos]. repeat split; lia.
+  - reflexivity.
+  - exact Hsizes.
+  - rewrite Hdf. exact Hf.
+  - exists s_end. rewrite Hdf in Hr. split; assumption.
+Qed.
+
+Print Assumptions lzma2_roundtrip_preset.
